@@ -94,6 +94,50 @@ PROPS = {
             "whole-save determinism beyond the allocator (reference rewriting follows the allocation, string collection is an ordered walk) is checked by the cross-process scenario run, not proved",
         ],
     },
+    "C02": {
+        "targets": ["RichchkModel.Props.C02"],
+        "harness": "rich_h",
+        "theorems_file": "RichchkModel/Props/C02.lean",
+        "namespace": "Richchk.Props.C02",
+        "trusted": [
+            "hand model Model/Rich.lean + Model/RichEnc.lean of the rich layer (string lookup by last id, MRGN/UPRP/UPUS/SWNM/WAV rebuilders, UNIS/UNIx, trigger entry tables driven by the generated transcoder table), tied by byte-comparing `cycle` with the real code on every generated map and the fixtures",
+            "independent reader harness/refchk.py driven by the hand-transcribed specification tables (Spec/*.lean via specdump) as the oracle for what the game reads",
+            "partial: the whole-cycle statement is not proved; the proved lemmas are listed, the cycle is validated by the correspondence run",
+        ],
+    },
+    "C03": {
+        "targets": ["RichchkModel.Props.C03"],
+        "harness": "rich_h",
+        "theorems_file": "RichchkModel/Props/C03.lean",
+        "namespace": "Richchk.Props.C03",
+        "trusted": [
+            "hand model Model/Rich.lean + Model/RichEnc.lean of the rich layer (string lookup by last id, MRGN/UPRP/UPUS/SWNM/WAV rebuilders, UNIS/UNIx, trigger entry tables driven by the generated transcoder table), tied by byte-comparing `cycle` with the real code on every generated map and the fixtures",
+            "independent reader harness/refchk.py driven by the hand-transcribed specification tables (Spec/*.lean via specdump) as the oracle for what the game reads",
+            "partial: the whole-cycle statement is not proved; the proved lemmas are listed, the cycle is validated by the correspondence run",
+        ],
+    },
+    "C10": {
+        "targets": ["RichchkModel.Props.C10"],
+        "harness": "rich_h",
+        "theorems_file": "RichchkModel/Props/C10.lean",
+        "namespace": "Richchk.Props.C10",
+        "trusted": [
+            "hand model Model/Rich.lean + Model/RichEnc.lean of the rich layer (string lookup by last id, MRGN/UPRP/UPUS/SWNM/WAV rebuilders, UNIS/UNIx, trigger entry tables driven by the generated transcoder table), tied by byte-comparing `cycle` with the real code on every generated map and the fixtures",
+            "independent reader harness/refchk.py driven by the hand-transcribed specification tables (Spec/*.lean via specdump) as the oracle for what the game reads",
+            "partial: the whole-cycle statement is not proved; the proved lemmas are listed, the cycle is validated by the correspondence run",
+        ],
+    },
+    "C11": {
+        "targets": ["RichchkModel.Props.C11"],
+        "harness": "rich_h",
+        "theorems_file": "RichchkModel/Props/C11.lean",
+        "namespace": "Richchk.Props.C11",
+        "trusted": [
+            "hand model Model/Rich.lean + Model/RichEnc.lean of the rich layer (string lookup by last id, MRGN/UPRP/UPUS/SWNM/WAV rebuilders, UNIS/UNIx, trigger entry tables driven by the generated transcoder table), tied by byte-comparing `cycle` with the real code on every generated map and the fixtures",
+            "independent reader harness/refchk.py driven by the hand-transcribed specification tables (Spec/*.lean via specdump) as the oracle for what the game reads",
+            "partial: the whole-cycle statement is not proved; the proved lemmas are listed, the cycle is validated by the correspondence run",
+        ],
+    },
     "C12": {
         "targets": ["RichchkModel.Props.C12"],
         "harness": "codecs_h",
@@ -362,8 +406,10 @@ def check(prop, tier, seed):
         broken.append({"stage": "correspond", "what": "model and implementation disagree on %d case(s)" % len(res["disagreements"]), "detail": res["disagreements"][:3]})
     known, fixed = known_findings(prop)
     known_keys = {k for k, _ in known}
-    unlisted = [v for v in res["violations"] if v.get("key") not in known_keys]
-    listed_hit = {v.get("key") for v in res["violations"] if v.get("key") in known_keys} | set(res.get("known_hits", []))
+    # harness: "violations" = oracle failures without a finding key; "known_samples" = one sample per finding key hit.
+    # A key that known_findings.txt does not list FOR THIS PROPERTY is an ordinary violation.
+    unlisted = [v for v in res["violations"] if v.get("key") not in known_keys] + [v for v in res.get("known_samples", []) if v.get("key") not in known_keys]
+    listed_hit = {v.get("key") for v in res["violations"] + res.get("known_samples", []) if v.get("key") in known_keys}
 
     discharged = len([n for n in names if n in ax]) if ok else 0
     cov = {
@@ -380,6 +426,7 @@ def check(prop, tier, seed):
         "input_distribution": res["dist"],
         "model_vs_impl_disagreements": len(res["disagreements"]),
         "oracle_violations": len(res["violations"]),
+        "known_findings_hit": sorted(listed_hit),
         "broken_stages": [b["stage"] + ": " + b["what"] for b in broken],
         "notes": res.get("notes", []),
     }
